@@ -302,8 +302,11 @@ func TestVerifC05(t *testing.T) {
 		res.Evaluations++
 		res.Transitions++
 		before := zzvValueSets(data)
-		fds0 := zzvOpenFDs()
+		fds0, maps0 := zzvOpenFDs(), zzvFileMaps(base)
 		out, after, pend := zzvUseDamaged(base, data, use)
+		if maps := zzvFileMaps(base); maps > maps0 && !out.noReturn && out.panicked == "" {
+			res.Violate("mapping-leak", fmt.Sprintf("%d memory mappings of the counter file are left after the process closed it (damaged file: %s)", maps-maps0, desc), map[string]any{"case": desc})
+		}
 		if fds := zzvOpenFDs(); fds > fds0 && !out.noReturn && out.panicked == "" {
 			res.Violate("descriptor-leak", fmt.Sprintf("%d file descriptors are left open after the process closed its counter file (damaged file: %s)", fds-fds0, desc), map[string]any{"case": desc})
 		}
@@ -420,6 +423,28 @@ func TestVerifC05(t *testing.T) {
 		}
 	}
 
+	// A file of several pages cut short at rest, to page multiples and to odd lengths, so that records the
+	// header still announces (limit) lie beyond the end: the remap path runs on every use.
+	{
+		long := ref.NewCFWriter(zzvC10Meta())
+		baseNames = map[string]bool{}
+		var lnames []string
+		for i := 0; i < 9; i++ {
+			n := fmt.Sprintf("long%d/%s", i, strings.Repeat("l", 3990))
+			lnames = append(lnames, n)
+			long.Add(n, uint64(20+i))
+		}
+		full := long.Bytes()
+		for _, sz := range []int{16384, 16384 + 30, 5*4096 + 30, 24576, 32768 - 1, len(full) - 4096, len(full) - 1} {
+			if sz >= len(full) {
+				continue
+			}
+			use = []string{lnames[0], lnames[8], "fresh"} // a record that survives, one beyond the cut, a new one
+			checkRest(fmt.Sprintf("R4:truncated-to=%d of %d", sz, len(full)), full[:sz])
+		}
+		use = []string{k1, k3, "fresh"}
+	}
+
 	// (3) initial directory states.
 	if p.Mine(0) {
 		zzvC05DirStates(res, base)
@@ -508,6 +533,16 @@ func zzvReadCapped(path string) []byte {
 }
 
 // zzvOpenFDs counts the process's open file descriptors.
+// zzvFileMaps counts the memory mappings of files below dir that this process holds (a mapping of a
+// file that has been removed since is listed with its old path).
+func zzvFileMaps(dir string) int {
+	data, err := os.ReadFile("/proc/self/maps")
+	if err != nil {
+		return 0
+	}
+	return strings.Count(string(data), dir+"/")
+}
+
 func zzvOpenFDs() int {
 	ents, err := os.ReadDir("/proc/self/fd")
 	if err != nil {
